@@ -115,3 +115,24 @@ Theorem C10_reserve_is_guarded : src_size_guards_ok = true ->
   Forall (fun g => forall body limit, g body limit = Some (limit <? body)) src_size_guards.
 Proof. exact reserve_is_guarded. Qed.
 Print Assumptions C10_reserve_is_guarded.
+
+(* the lengths the body parsers compute (get_value_len; what the incr/decr and the set
+   parser require of the body before they read their fixed fields), translated on every
+   run: for every header a frame can carry — and, for the value length, every header
+   request_valid accepts — they evaluate without underflow or overflow to the model's *)
+Theorem C10_value_len_is_source : src_value_len_ok = true ->
+  forall h kr, header_in_range h -> request_valid h kr = true ->
+  src_value_len (h_bodylen h) (h_keylen h) (h_extlen h) = Some (value_len h).
+Proof. exact value_len_is_source. Qed.
+Print Assumptions C10_value_len_is_source.
+
+Theorem C10_incdec_required_is_source : src_incdec_required_ok = true ->
+  forall h, header_in_range h -> src_incdec_required (h_keylen h) = Some (20 + h_keylen h).
+Proof. exact incdec_required_is_source. Qed.
+Print Assumptions C10_incdec_required_is_source.
+
+Theorem C10_set_required_is_source : src_set_required_ok = true ->
+  forall h, header_in_range h ->
+  src_set_required (h_keylen h) (value_len h) = Some (8 + h_keylen h + value_len h).
+Proof. exact set_required_is_source. Qed.
+Print Assumptions C10_set_required_is_source.
